@@ -96,3 +96,351 @@ pub proof fn lemma_chain_pair(dom: Set<Carrier>, ord: Seq<Carrier>, vals: Seq<re
     assert(ord2.to_set() =~= dom);
     lemma_csum_scale(dom, g, g2, carriers12(), ct);
 }
+
+// ------------------------------------------------------------------------------------------------ two whole-building balances
+pub open spec fn run_of(b: BalanceCarrier) -> Run { Run { cs: Seq::empty(), used: b.used, prod: b.prod, fm: b.f_match@, exp: b.exp, del: b.del } }
+/// the per-carrier balances of two evaluations: same carriers, every annual and weighted figure of the second ct times the first
+pub open spec fn bcr_rel(bcr: Map<Carrier, BalanceCarrier>, bcr2: Map<Carrier, BalanceCarrier>, ct: real) -> bool {
+    &&& bcr2.dom() =~= bcr.dom()
+    &&& (forall|c: Carrier| bcr.contains_key(c) ==> (#[trigger] bcr[c]).carrier == c && bcr2[c].carrier == c
+            && annual_rel(run_of(bcr[c]), run_of(bcr2[c]), ct) && we_rel(bcr[c].we, bcr2[c].we, ct)
+            && bcr2[c].used.epus_by_srv_an@.dom() =~= bcr[c].used.epus_by_srv_an@.dom()
+            && bcr[c].we.a_by_srv@.dom() =~= bcr[c].used.epus_by_srv_an@.dom() && bcr[c].we.b_by_srv@.dom() =~= bcr[c].used.epus_by_srv_an@.dom())
+}
+/// every whole-building figure of the second balance is ct times that of the first (maps: absent key = 0)
+pub open spec fn bal_rel(x: Balance, y: Balance, ct: real) -> bool {
+    &&& rv(y.used.epus) == ct * rv(x.used.epus) && rv(y.used.nepus) == ct * rv(x.used.nepus) && rv(y.used.cgnus) == ct * rv(x.used.cgnus)
+    &&& rv(y.prod.an) == ct * rv(x.prod.an)
+    &&& rv(y.del.an) == ct * rv(x.del.an) && rv(y.del.onst) == ct * rv(x.del.onst) && rv(y.del.grid) == ct * rv(x.del.grid)
+    &&& rv(y.exp.an) == ct * rv(x.exp.an) && rv(y.exp.nepus) == ct * rv(x.exp.nepus) && rv(y.exp.grid) == ct * rv(x.exp.grid)
+    &&& r3v(y.we.a) == r3s(ct, r3v(x.we.a)) && r3v(y.we.b) == r3s(ct, r3v(x.we.b)) && r3v(y.we.del) == r3s(ct, r3v(x.we.del))
+    &&& r3v(y.we.exp_a) == r3s(ct, r3v(x.we.exp_a)) && r3v(y.we.exp) == r3s(ct, r3v(x.we.exp))
+    &&& (forall|s: Service| #[trigger] mval(y.used.epus_by_srv@, s) == ct * mval(x.used.epus_by_srv@, s))
+    &&& (forall|s: Service| #[trigger] mval3(y.we.a_by_srv@, s) == r3s(ct, mval3(x.we.a_by_srv@, s)))
+    &&& (forall|s: Service| #[trigger] mval3(y.we.b_by_srv@, s) == r3s(ct, mval3(x.we.b_by_srv@, s)))
+    &&& (forall|s: ProdSource| #[trigger] mval(y.prod.by_src@, s) == ct * mval(x.prod.by_src@, s))
+    &&& (forall|s: ProdSource| #[trigger] mval(y.prod.epus_by_src@, s) == ct * mval(x.prod.epus_by_src@, s))
+    &&& (forall|c: Carrier| #[trigger] mval(y.prod.by_cr@, c) == ct * mval(x.prod.by_cr@, c))
+    &&& (forall|c: Carrier| #[trigger] mval(y.del.grid_by_cr@, c) == ct * mval(x.del.grid_by_cr@, c))
+    &&& (forall|c: Carrier| #[trigger] mval(y.used.epus_by_cr@, c) == ct * mval(x.used.epus_by_cr@, c))
+}
+pub open spec fn hvals(hist: Seq<Balance>, val: spec_fn(Balance) -> real) -> Seq<real> { Seq::new(hist.len(), |j: int| val(hist[j])) }
+/// one figure of the two balances: increments g per carrier, related by ct
+pub proof fn lemma_field(bcr: Map<Carrier, BalanceCarrier>, bcr2: Map<Carrier, BalanceCarrier>, ord: Seq<Carrier>, hist: Seq<Balance>, ord2: Seq<Carrier>, hist2: Seq<Balance>,
+                         val: spec_fn(Balance) -> real, g: spec_fn(BalanceCarrier) -> real, ct: real)
+    requires
+        hist.len() == ord.len() + 1, ord.no_duplicates(), forall|c: Carrier| bcr.contains_key(c) <==> ord.contains(c),
+        hist2.len() == ord2.len() + 1, ord2.no_duplicates(), forall|c: Carrier| bcr2.contains_key(c) <==> ord2.contains(c),
+        bcr2.dom() =~= bcr.dom(),
+        forall|j: int| 0 <= j < ord.len() ==> val(#[trigger] hist[j + 1]) == val(hist[j]) + g(bcr[ord[j]]),
+        forall|j: int| 0 <= j < ord2.len() ==> val(#[trigger] hist2[j + 1]) == val(hist2[j]) + g(bcr2[ord2[j]]),
+        val(hist[0]) == 0real, val(hist2[0]) == 0real,
+        forall|c: Carrier| bcr.contains_key(c) ==> g(#[trigger] bcr2[c]) == ct * g(bcr[c]),
+    ensures val(hist2.last()) == ct * val(hist.last()),
+            val(hist.last()) == csum(bcr.dom(), |c: Carrier| g(bcr[c]), carriers12()),
+{
+    let vals = hvals(hist, val); let vals2 = hvals(hist2, val);
+    let gg = |c: Carrier| g(bcr[c]); let gg2 = |c: Carrier| g(bcr2[c]);
+    assert forall|j: int| 0 <= j < ord.len() implies #[trigger] vals[j + 1] == vals[j] + gg(ord[j]) by { assert(val(hist[j + 1]) == val(hist[j]) + g(bcr[ord[j]])); }
+    assert forall|j: int| 0 <= j < ord2.len() implies #[trigger] vals2[j + 1] == vals2[j] + gg2(ord2[j]) by { assert(val(hist2[j + 1]) == val(hist2[j]) + g(bcr2[ord2[j]])); }
+    assert forall|c: Carrier| bcr.dom().contains(c) implies #[trigger] gg2(c) == ct * gg(c) by { assert(g(bcr2[c]) == ct * g(bcr[c])); }
+    assert forall|c: Carrier| bcr.dom().contains(c) <==> ord2.contains(c) by { assert(bcr2.contains_key(c) == bcr.contains_key(c)); }
+    lemma_chain_pair(bcr.dom(), ord, vals, gg, ord2, vals2, gg2, ct);
+}
+
+pub open spec fn chain_of(bcr: Map<Carrier, BalanceCarrier>, ord: Seq<Carrier>, hist: Seq<Balance>) -> bool {
+    bal_chain(bcr, ord, hist) && bal_zero(hist[0])
+}
+pub open spec fn chain_basic(bcr: Map<Carrier, BalanceCarrier>, ord: Seq<Carrier>, hist: Seq<Balance>) -> bool {
+    hist.len() == ord.len() + 1 && ord.no_duplicates() && (forall|c: Carrier| bcr.contains_key(c) <==> ord.contains(c)) && bal_zero(hist[0])
+}
+pub proof fn lemma_chain_scalars(bcr: Map<Carrier, BalanceCarrier>, ord: Seq<Carrier>, hist: Seq<Balance>)
+    requires chain_of(bcr, ord, hist),
+    ensures chain_basic(bcr, ord, hist),
+            forall|j: int| 0 <= j < ord.len() ==> bcr.contains_key(ord[j]) && bal_add_used(#[trigger] hist[j], hist[j + 1], bcr[ord[j]])
+                && bal_add_prod_del_exp(hist[j], hist[j + 1], bcr[ord[j]]) && bal_add_we(hist[j], hist[j + 1], bcr[ord[j]]),
+{
+    reveal(bal_add_all);
+    assert forall|j: int| 0 <= j < ord.len() implies bcr.contains_key(ord[j]) && bal_add_used(#[trigger] hist[j], hist[j + 1], bcr[ord[j]])
+                && bal_add_prod_del_exp(hist[j], hist[j + 1], bcr[ord[j]]) && bal_add_we(hist[j], hist[j + 1], bcr[ord[j]]) by {
+        assert(bal_add_all(hist[j], hist[j + 1], bcr[ord[j]]));
+        assert(ord.contains(ord[j]));
+    }
+}
+pub proof fn lemma_chain_maps(bcr: Map<Carrier, BalanceCarrier>, ord: Seq<Carrier>, hist: Seq<Balance>)
+    requires chain_of(bcr, ord, hist),
+    ensures chain_basic(bcr, ord, hist),
+            forall|j: int| 0 <= j < ord.len() ==> bcr.contains_key(ord[j]) && bal_add_by_srv(#[trigger] hist[j], hist[j + 1], bcr[ord[j]])
+                && bal_add_by_src(hist[j], hist[j + 1], bcr[ord[j]]) && bal_add_by_cr(hist[j], hist[j + 1], bcr[ord[j]]),
+{
+    reveal(bal_add_all);
+    assert forall|j: int| 0 <= j < ord.len() implies bcr.contains_key(ord[j]) && bal_add_by_srv(#[trigger] hist[j], hist[j + 1], bcr[ord[j]])
+                && bal_add_by_src(hist[j], hist[j + 1], bcr[ord[j]]) && bal_add_by_cr(hist[j], hist[j + 1], bcr[ord[j]]) by {
+        assert(bal_add_all(hist[j], hist[j + 1], bcr[ord[j]]));
+        assert(ord.contains(ord[j]));
+    }
+}
+pub open spec fn bal_rel_scalars(x: Balance, y: Balance, ct: real) -> bool {
+    &&& rv(y.used.epus) == ct * rv(x.used.epus) && rv(y.used.nepus) == ct * rv(x.used.nepus) && rv(y.used.cgnus) == ct * rv(x.used.cgnus)
+    &&& rv(y.prod.an) == ct * rv(x.prod.an)
+    &&& rv(y.del.an) == ct * rv(x.del.an) && rv(y.del.onst) == ct * rv(x.del.onst) && rv(y.del.grid) == ct * rv(x.del.grid)
+    &&& rv(y.exp.an) == ct * rv(x.exp.an) && rv(y.exp.nepus) == ct * rv(x.exp.nepus) && rv(y.exp.grid) == ct * rv(x.exp.grid)
+}
+pub open spec fn bal_rel_we(x: Balance, y: Balance, ct: real) -> bool {
+    &&& r3v(y.we.a) == r3s(ct, r3v(x.we.a)) && r3v(y.we.b) == r3s(ct, r3v(x.we.b)) && r3v(y.we.del) == r3s(ct, r3v(x.we.del))
+    &&& r3v(y.we.exp_a) == r3s(ct, r3v(x.we.exp_a)) && r3v(y.we.exp) == r3s(ct, r3v(x.we.exp))
+}
+#[verifier::spinoff_prover]
+pub proof fn thm_building_scalars(bcr: Map<Carrier, BalanceCarrier>, bcr2: Map<Carrier, BalanceCarrier>, ord: Seq<Carrier>, hist: Seq<Balance>, ord2: Seq<Carrier>, hist2: Seq<Balance>, ct: real)
+    requires ct > 0real, bcr_rel(bcr, bcr2, ct), chain_of(bcr, ord, hist), chain_of(bcr2, ord2, hist2),
+    ensures bal_rel_scalars(hist.last(), hist2.last(), ct),
+{
+    lemma_chain_scalars(bcr, ord, hist); lemma_chain_scalars(bcr2, ord2, hist2);
+    assert forall|c: Carrier| bcr.contains_key(c) implies annual_rel(run_of(#[trigger] bcr[c]), run_of(bcr2[c]), ct) by {}
+    lemma_field(bcr, bcr2, ord, hist, ord2, hist2, |b: Balance| rv(b.used.epus), |r: BalanceCarrier| rv(r.used.epus_an), ct);
+    lemma_field(bcr, bcr2, ord, hist, ord2, hist2, |b: Balance| rv(b.used.nepus), |r: BalanceCarrier| rv(r.used.nepus_an), ct);
+    lemma_field(bcr, bcr2, ord, hist, ord2, hist2, |b: Balance| rv(b.used.cgnus), |r: BalanceCarrier| rv(r.used.cgnus_an), ct);
+    lemma_field(bcr, bcr2, ord, hist, ord2, hist2, |b: Balance| rv(b.prod.an), |r: BalanceCarrier| rv(r.prod.an), ct);
+    lemma_field(bcr, bcr2, ord, hist, ord2, hist2, |b: Balance| rv(b.del.an), |r: BalanceCarrier| rv(r.del.an), ct);
+    lemma_field(bcr, bcr2, ord, hist, ord2, hist2, |b: Balance| rv(b.del.onst), |r: BalanceCarrier| rv(r.del.onst_an), ct);
+    lemma_field(bcr, bcr2, ord, hist, ord2, hist2, |b: Balance| rv(b.del.grid), |r: BalanceCarrier| rv(r.del.grid_an), ct);
+    lemma_field(bcr, bcr2, ord, hist, ord2, hist2, |b: Balance| rv(b.exp.an), |r: BalanceCarrier| rv(r.exp.an), ct);
+    lemma_field(bcr, bcr2, ord, hist, ord2, hist2, |b: Balance| rv(b.exp.nepus), |r: BalanceCarrier| rv(r.exp.nepus_an), ct);
+    lemma_field(bcr, bcr2, ord, hist, ord2, hist2, |b: Balance| rv(b.exp.grid), |r: BalanceCarrier| rv(r.exp.grid_an), ct);
+}
+#[verifier::spinoff_prover]
+pub proof fn thm_building_we(bcr: Map<Carrier, BalanceCarrier>, bcr2: Map<Carrier, BalanceCarrier>, ord: Seq<Carrier>, hist: Seq<Balance>, ord2: Seq<Carrier>, hist2: Seq<Balance>, ct: real)
+    requires ct > 0real, bcr_rel(bcr, bcr2, ct), chain_of(bcr, ord, hist), chain_of(bcr2, ord2, hist2),
+    ensures bal_rel_we(hist.last(), hist2.last(), ct),
+{
+    lemma_chain_scalars(bcr, ord, hist); lemma_chain_scalars(bcr2, ord2, hist2);
+    assert forall|c: Carrier| bcr.contains_key(c) implies we_rel((#[trigger] bcr[c]).we, bcr2[c].we, ct) by {}
+    lemma_field(bcr, bcr2, ord, hist, ord2, hist2, |b: Balance| rv(b.we.a.ren), |r: BalanceCarrier| rv(r.we.a.ren), ct);
+    lemma_field(bcr, bcr2, ord, hist, ord2, hist2, |b: Balance| rv(b.we.a.nren), |r: BalanceCarrier| rv(r.we.a.nren), ct);
+    lemma_field(bcr, bcr2, ord, hist, ord2, hist2, |b: Balance| rv(b.we.a.co2), |r: BalanceCarrier| rv(r.we.a.co2), ct);
+    lemma_field(bcr, bcr2, ord, hist, ord2, hist2, |b: Balance| rv(b.we.b.ren), |r: BalanceCarrier| rv(r.we.b.ren), ct);
+    lemma_field(bcr, bcr2, ord, hist, ord2, hist2, |b: Balance| rv(b.we.b.nren), |r: BalanceCarrier| rv(r.we.b.nren), ct);
+    lemma_field(bcr, bcr2, ord, hist, ord2, hist2, |b: Balance| rv(b.we.b.co2), |r: BalanceCarrier| rv(r.we.b.co2), ct);
+    lemma_field(bcr, bcr2, ord, hist, ord2, hist2, |b: Balance| rv(b.we.del.ren), |r: BalanceCarrier| rv(r.we.del.ren), ct);
+    lemma_field(bcr, bcr2, ord, hist, ord2, hist2, |b: Balance| rv(b.we.del.nren), |r: BalanceCarrier| rv(r.we.del.nren), ct);
+    lemma_field(bcr, bcr2, ord, hist, ord2, hist2, |b: Balance| rv(b.we.del.co2), |r: BalanceCarrier| rv(r.we.del.co2), ct);
+    lemma_field(bcr, bcr2, ord, hist, ord2, hist2, |b: Balance| rv(b.we.exp_a.ren), |r: BalanceCarrier| rv(r.we.exp_a.ren), ct);
+    lemma_field(bcr, bcr2, ord, hist, ord2, hist2, |b: Balance| rv(b.we.exp_a.nren), |r: BalanceCarrier| rv(r.we.exp_a.nren), ct);
+    lemma_field(bcr, bcr2, ord, hist, ord2, hist2, |b: Balance| rv(b.we.exp_a.co2), |r: BalanceCarrier| rv(r.we.exp_a.co2), ct);
+    lemma_field(bcr, bcr2, ord, hist, ord2, hist2, |b: Balance| rv(b.we.exp.ren), |r: BalanceCarrier| rv(r.we.exp.ren), ct);
+    lemma_field(bcr, bcr2, ord, hist, ord2, hist2, |b: Balance| rv(b.we.exp.nren), |r: BalanceCarrier| rv(r.we.exp.nren), ct);
+    lemma_field(bcr, bcr2, ord, hist, ord2, hist2, |b: Balance| rv(b.we.exp.co2), |r: BalanceCarrier| rv(r.we.exp.co2), ct);
+}
+pub open spec fn bal_rel_srv(x: Balance, y: Balance, ct: real) -> bool {
+    &&& (forall|s: Service| #[trigger] mval(y.used.epus_by_srv@, s) == ct * mval(x.used.epus_by_srv@, s))
+    &&& (forall|s: Service| #[trigger] mval3(y.we.a_by_srv@, s) == r3s(ct, mval3(x.we.a_by_srv@, s)))
+    &&& (forall|s: Service| #[trigger] mval3(y.we.b_by_srv@, s) == r3s(ct, mval3(x.we.b_by_srv@, s)))
+}
+pub open spec fn bal_rel_src(x: Balance, y: Balance, ct: real) -> bool {
+    &&& (forall|s: ProdSource| #[trigger] mval(y.prod.by_src@, s) == ct * mval(x.prod.by_src@, s))
+    &&& (forall|s: ProdSource| #[trigger] mval(y.prod.epus_by_src@, s) == ct * mval(x.prod.epus_by_src@, s))
+}
+pub open spec fn bal_rel_cr(x: Balance, y: Balance, ct: real) -> bool {
+    &&& (forall|c: Carrier| #[trigger] mval(y.prod.by_cr@, c) == ct * mval(x.prod.by_cr@, c))
+    &&& (forall|c: Carrier| #[trigger] mval(y.del.grid_by_cr@, c) == ct * mval(x.del.grid_by_cr@, c))
+    &&& (forall|c: Carrier| #[trigger] mval(y.used.epus_by_cr@, c) == ct * mval(x.used.epus_by_cr@, c))
+}
+/// map_acc in terms of "absent = 0" values
+pub proof fn lemma_map_acc_mval<K>(old: Map<K, f32>, new: Map<K, f32>, add: Map<K, f32>, k: K)
+    requires map_acc(old, new, add),
+    ensures mval(new, k) == mval(old, k) + mvalf(add, k),
+{
+    if add.contains_key(k) { assert(new.contains_key(k)); }
+    else if old.contains_key(k) { assert(new.contains_key(k)); assert(new[k] == old[k]); }
+    else { assert(!new.contains_key(k)); }
+}
+pub proof fn lemma_map_acc3_mval(old: Map<Service, RenNrenCo2>, new: Map<Service, RenNrenCo2>, add: Map<Service, RenNrenCo2>, dom: Map<Service, f32>, k: Service)
+    requires map_acc3(old, new, add, dom), add.dom() =~= dom.dom(),
+    ensures mval3(new, k) == r3a(mval3(old, k), mval3(add, k)),
+{
+    if dom.contains_key(k) && add.contains_key(k) { assert(new.contains_key(k)); }
+    else if old.contains_key(k) { assert(new.contains_key(k)); assert(new[k] == old[k]); }
+    else { assert(!new.contains_key(k)); }
+}
+pub proof fn lemma_map_acc1_mval<K>(old: Map<K, f32>, new: Map<K, f32>, key: K, v: real, cond: bool, k: K)
+    requires map_acc1(old, new, key, v, cond),
+    ensures mval(new, k) == mval(old, k) + (if cond && k == key { v } else { 0real }),
+{
+    if cond {
+        assert(new.dom() =~= old.dom().insert(key));
+        if k == key { assert(new.contains_key(k)); }
+        else if old.contains_key(k) { assert(new.contains_key(k)); assert(new[k] == old[k]); }
+        else { assert(!new.contains_key(k)); }
+    }
+}
+#[verifier::spinoff_prover]
+pub proof fn thm_building_src(bcr: Map<Carrier, BalanceCarrier>, bcr2: Map<Carrier, BalanceCarrier>, ord: Seq<Carrier>, hist: Seq<Balance>, ord2: Seq<Carrier>, hist2: Seq<Balance>, ct: real)
+    requires ct > 0real, bcr_rel(bcr, bcr2, ct), chain_of(bcr, ord, hist), chain_of(bcr2, ord2, hist2),
+    ensures bal_rel_src(hist.last(), hist2.last(), ct),
+{
+    lemma_chain_maps(bcr, ord, hist); lemma_chain_maps(bcr2, ord2, hist2);
+    let x = hist.last(); let y = hist2.last();
+    assert forall|c: Carrier| bcr.contains_key(c) implies annual_rel(run_of(#[trigger] bcr[c]), run_of(bcr2[c]), ct) by {}
+    assert forall|s: ProdSource| #[trigger] mval(y.prod.by_src@, s) == ct * mval(x.prod.by_src@, s) by {
+        assert forall|j: int| 0 <= j < ord.len() implies mval((#[trigger] hist[j + 1]).prod.by_src@, s) == mval(hist[j].prod.by_src@, s) + mvalf(bcr[ord[j]].prod.by_src_an@, s) by {
+            assert(bal_add_by_src(hist[j], hist[j + 1], bcr[ord[j]]));
+            lemma_map_acc_mval(hist[j].prod.by_src@, hist[j + 1].prod.by_src@, bcr[ord[j]].prod.by_src_an@, s);
+        }
+        assert forall|j: int| 0 <= j < ord2.len() implies mval((#[trigger] hist2[j + 1]).prod.by_src@, s) == mval(hist2[j].prod.by_src@, s) + mvalf(bcr2[ord2[j]].prod.by_src_an@, s) by {
+            assert(bal_add_by_src(hist2[j], hist2[j + 1], bcr2[ord2[j]]));
+            lemma_map_acc_mval(hist2[j].prod.by_src@, hist2[j + 1].prod.by_src@, bcr2[ord2[j]].prod.by_src_an@, s);
+        }
+        assert forall|c: Carrier| bcr.contains_key(c) implies mvalf((#[trigger] bcr2[c]).prod.by_src_an@, s) == ct * mvalf(bcr[c].prod.by_src_an@, s) by {
+            assert(annual_rel(run_of(bcr[c]), run_of(bcr2[c]), ct));
+        }
+        lemma_field(bcr, bcr2, ord, hist, ord2, hist2, |b: Balance| mval(b.prod.by_src@, s), |r: BalanceCarrier| mvalf(r.prod.by_src_an@, s), ct);
+    }
+    assert forall|s: ProdSource| #[trigger] mval(y.prod.epus_by_src@, s) == ct * mval(x.prod.epus_by_src@, s) by {
+        assert forall|j: int| 0 <= j < ord.len() implies mval((#[trigger] hist[j + 1]).prod.epus_by_src@, s) == mval(hist[j].prod.epus_by_src@, s) + mvalf(bcr[ord[j]].prod.epus_by_src_an@, s) by {
+            assert(bal_add_by_src(hist[j], hist[j + 1], bcr[ord[j]]));
+            lemma_map_acc_mval(hist[j].prod.epus_by_src@, hist[j + 1].prod.epus_by_src@, bcr[ord[j]].prod.epus_by_src_an@, s);
+        }
+        assert forall|j: int| 0 <= j < ord2.len() implies mval((#[trigger] hist2[j + 1]).prod.epus_by_src@, s) == mval(hist2[j].prod.epus_by_src@, s) + mvalf(bcr2[ord2[j]].prod.epus_by_src_an@, s) by {
+            assert(bal_add_by_src(hist2[j], hist2[j + 1], bcr2[ord2[j]]));
+            lemma_map_acc_mval(hist2[j].prod.epus_by_src@, hist2[j + 1].prod.epus_by_src@, bcr2[ord2[j]].prod.epus_by_src_an@, s);
+        }
+        assert forall|c: Carrier| bcr.contains_key(c) implies mvalf((#[trigger] bcr2[c]).prod.epus_by_src_an@, s) == ct * mvalf(bcr[c].prod.epus_by_src_an@, s) by {
+            assert(annual_rel(run_of(bcr[c]), run_of(bcr2[c]), ct));
+        }
+        lemma_field(bcr, bcr2, ord, hist, ord2, hist2, |b: Balance| mval(b.prod.epus_by_src@, s), |r: BalanceCarrier| mvalf(r.prod.epus_by_src_an@, s), ct);
+    }
+}
+#[verifier::spinoff_prover]
+pub proof fn thm_building_srv(bcr: Map<Carrier, BalanceCarrier>, bcr2: Map<Carrier, BalanceCarrier>, ord: Seq<Carrier>, hist: Seq<Balance>, ord2: Seq<Carrier>, hist2: Seq<Balance>, ct: real)
+    requires ct > 0real, bcr_rel(bcr, bcr2, ct), chain_of(bcr, ord, hist), chain_of(bcr2, ord2, hist2),
+    ensures bal_rel_srv(hist.last(), hist2.last(), ct),
+{
+    lemma_chain_maps(bcr, ord, hist); lemma_chain_maps(bcr2, ord2, hist2);
+    lemma_mul0(ct);
+    let x = hist.last(); let y = hist2.last();
+    assert forall|c: Carrier| bcr.contains_key(c) implies annual_rel(run_of(#[trigger] bcr[c]), run_of(bcr2[c]), ct) && we_rel(bcr[c].we, bcr2[c].we, ct)
+        && bcr2[c].used.epus_by_srv_an@.dom() =~= bcr[c].used.epus_by_srv_an@.dom()
+        && bcr[c].we.a_by_srv@.dom() =~= bcr[c].used.epus_by_srv_an@.dom() && bcr[c].we.b_by_srv@.dom() =~= bcr[c].used.epus_by_srv_an@.dom() by {}
+    assert forall|s: Service| #[trigger] mval(y.used.epus_by_srv@, s) == ct * mval(x.used.epus_by_srv@, s) by {
+        assert forall|j: int| 0 <= j < ord.len() implies mval((#[trigger] hist[j + 1]).used.epus_by_srv@, s) == mval(hist[j].used.epus_by_srv@, s) + mvalf(bcr[ord[j]].used.epus_by_srv_an@, s) by {
+            assert(bal_add_by_srv(hist[j], hist[j + 1], bcr[ord[j]]));
+            lemma_map_acc_mval(hist[j].used.epus_by_srv@, hist[j + 1].used.epus_by_srv@, bcr[ord[j]].used.epus_by_srv_an@, s);
+        }
+        assert forall|j: int| 0 <= j < ord2.len() implies mval((#[trigger] hist2[j + 1]).used.epus_by_srv@, s) == mval(hist2[j].used.epus_by_srv@, s) + mvalf(bcr2[ord2[j]].used.epus_by_srv_an@, s) by {
+            assert(bal_add_by_srv(hist2[j], hist2[j + 1], bcr2[ord2[j]]));
+            lemma_map_acc_mval(hist2[j].used.epus_by_srv@, hist2[j + 1].used.epus_by_srv@, bcr2[ord2[j]].used.epus_by_srv_an@, s);
+        }
+        assert forall|c: Carrier| bcr.contains_key(c) implies mvalf((#[trigger] bcr2[c]).used.epus_by_srv_an@, s) == ct * mvalf(bcr[c].used.epus_by_srv_an@, s) by {
+            assert(annual_rel(run_of(bcr[c]), run_of(bcr2[c]), ct));
+        }
+        lemma_field(bcr, bcr2, ord, hist, ord2, hist2, |b: Balance| mval(b.used.epus_by_srv@, s), |r: BalanceCarrier| mvalf(r.used.epus_by_srv_an@, s), ct);
+    }
+    assert forall|s: Service| #[trigger] mval3(y.we.a_by_srv@, s) == r3s(ct, mval3(x.we.a_by_srv@, s)) by {
+        lemma_building_srv3(bcr, bcr2, ord, hist, ord2, hist2, ct, s, true);
+    }
+    assert forall|s: Service| #[trigger] mval3(y.we.b_by_srv@, s) == r3s(ct, mval3(x.we.b_by_srv@, s)) by {
+        lemma_building_srv3(bcr, bcr2, ord, hist, ord2, hist2, ct, s, false);
+    }
+}
+pub open spec fn srv3(b: Balance, step_a: bool) -> Map<Service, RenNrenCo2> { if step_a { b.we.a_by_srv@ } else { b.we.b_by_srv@ } }
+pub open spec fn srv3c(r: BalanceCarrier, step_a: bool) -> Map<Service, RenNrenCo2> { if step_a { r.we.a_by_srv@ } else { r.we.b_by_srv@ } }
+pub proof fn lemma_building_srv3(bcr: Map<Carrier, BalanceCarrier>, bcr2: Map<Carrier, BalanceCarrier>, ord: Seq<Carrier>, hist: Seq<Balance>, ord2: Seq<Carrier>, hist2: Seq<Balance>, ct: real, s: Service, step_a: bool)
+    requires
+        ct > 0real, bcr2.dom() =~= bcr.dom(), chain_basic(bcr, ord, hist), chain_basic(bcr2, ord2, hist2),
+        forall|j: int| 0 <= j < ord.len() ==> bcr.contains_key(ord[j]) && bal_add_by_srv(#[trigger] hist[j], hist[j + 1], bcr[ord[j]]),
+        forall|j: int| 0 <= j < ord2.len() ==> bcr2.contains_key(ord2[j]) && bal_add_by_srv(#[trigger] hist2[j], hist2[j + 1], bcr2[ord2[j]]),
+        forall|c: Carrier| bcr.contains_key(c) ==> we_rel((#[trigger] bcr[c]).we, bcr2[c].we, ct)
+            && bcr2[c].used.epus_by_srv_an@.dom() =~= bcr[c].used.epus_by_srv_an@.dom()
+            && bcr[c].we.a_by_srv@.dom() =~= bcr[c].used.epus_by_srv_an@.dom() && bcr[c].we.b_by_srv@.dom() =~= bcr[c].used.epus_by_srv_an@.dom(),
+    ensures mval3(srv3(hist2.last(), step_a), s) == r3s(ct, mval3(srv3(hist.last(), step_a), s)),
+{
+    lemma_mul0(ct);
+    assert forall|j: int| 0 <= j < ord.len() implies mval3(srv3(#[trigger] hist[j + 1], step_a), s) == r3a(mval3(srv3(hist[j], step_a), s), mval3(srv3c(bcr[ord[j]], step_a), s)) by {
+        assert(bal_add_by_srv(hist[j], hist[j + 1], bcr[ord[j]]));
+        assert(we_rel(bcr[ord[j]].we, bcr2[ord[j]].we, ct));
+        lemma_map_acc3_mval(srv3(hist[j], step_a), srv3(hist[j + 1], step_a), srv3c(bcr[ord[j]], step_a), bcr[ord[j]].used.epus_by_srv_an@, s);
+    }
+    assert forall|j: int| 0 <= j < ord2.len() implies mval3(srv3(#[trigger] hist2[j + 1], step_a), s) == r3a(mval3(srv3(hist2[j], step_a), s), mval3(srv3c(bcr2[ord2[j]], step_a), s)) by {
+        assert(bal_add_by_srv(hist2[j], hist2[j + 1], bcr2[ord2[j]]));
+        let c = ord2[j];
+        assert(bcr.contains_key(c));
+        assert(we_rel(bcr[c].we, bcr2[c].we, ct));
+        lemma_map_acc3_mval(srv3(hist2[j], step_a), srv3(hist2[j + 1], step_a), srv3c(bcr2[c], step_a), bcr2[c].used.epus_by_srv_an@, s);
+    }
+    assert forall|c: Carrier| bcr.contains_key(c) implies mval3(srv3c(#[trigger] bcr2[c], step_a), s) == r3s(ct, mval3(srv3c(bcr[c], step_a), s)) by {
+        assert(we_rel(bcr[c].we, bcr2[c].we, ct));
+    }
+    lemma_field(bcr, bcr2, ord, hist, ord2, hist2, |b: Balance| mval3(srv3(b, step_a), s).ren, |r: BalanceCarrier| mval3(srv3c(r, step_a), s).ren, ct);
+    lemma_field(bcr, bcr2, ord, hist, ord2, hist2, |b: Balance| mval3(srv3(b, step_a), s).nren, |r: BalanceCarrier| mval3(srv3c(r, step_a), s).nren, ct);
+    lemma_field(bcr, bcr2, ord, hist, ord2, hist2, |b: Balance| mval3(srv3(b, step_a), s).co2, |r: BalanceCarrier| mval3(srv3c(r, step_a), s).co2, ct);
+}
+#[verifier::spinoff_prover]
+pub proof fn thm_building_cr(bcr: Map<Carrier, BalanceCarrier>, bcr2: Map<Carrier, BalanceCarrier>, ord: Seq<Carrier>, hist: Seq<Balance>, ord2: Seq<Carrier>, hist2: Seq<Balance>, ct: real)
+    requires ct > 0real, bcr_rel(bcr, bcr2, ct), chain_of(bcr, ord, hist), chain_of(bcr2, ord2, hist2),
+    ensures bal_rel_cr(hist.last(), hist2.last(), ct),
+{
+    lemma_chain_maps(bcr, ord, hist); lemma_chain_maps(bcr2, ord2, hist2);
+    lemma_mul0(ct);
+    let x = hist.last(); let y = hist2.last();
+    assert forall|c: Carrier| bcr.contains_key(c) implies annual_rel(run_of(#[trigger] bcr[c]), run_of(bcr2[c]), ct) && bcr[c].carrier == c && bcr2[c].carrier == c by {}
+    assert forall|k: Carrier| #[trigger] mval(y.prod.by_cr@, k) == ct * mval(x.prod.by_cr@, k) by {
+        let g = |r: BalanceCarrier| if rv(r.prod.an) != 0real && r.carrier == k { rv(r.prod.an) } else { 0real };
+        assert forall|j: int| 0 <= j < ord.len() implies mval((#[trigger] hist[j + 1]).prod.by_cr@, k) == mval(hist[j].prod.by_cr@, k) + g(bcr[ord[j]]) by {
+            assert(bal_add_by_cr(hist[j], hist[j + 1], bcr[ord[j]]));
+            lemma_map_acc1_mval(hist[j].prod.by_cr@, hist[j + 1].prod.by_cr@, bcr[ord[j]].carrier, rv(bcr[ord[j]].prod.an), rv(bcr[ord[j]].prod.an) != 0real, k);
+        }
+        assert forall|j: int| 0 <= j < ord2.len() implies mval((#[trigger] hist2[j + 1]).prod.by_cr@, k) == mval(hist2[j].prod.by_cr@, k) + g(bcr2[ord2[j]]) by {
+            assert(bal_add_by_cr(hist2[j], hist2[j + 1], bcr2[ord2[j]]));
+            lemma_map_acc1_mval(hist2[j].prod.by_cr@, hist2[j + 1].prod.by_cr@, bcr2[ord2[j]].carrier, rv(bcr2[ord2[j]].prod.an), rv(bcr2[ord2[j]].prod.an) != 0real, k);
+        }
+        assert forall|c: Carrier| bcr.contains_key(c) implies g(#[trigger] bcr2[c]) == ct * g(bcr[c]) by {
+            assert(annual_rel(run_of(bcr[c]), run_of(bcr2[c]), ct));
+            lemma_pos_mul(ct, rv(bcr[c].prod.an));
+        }
+        lemma_field(bcr, bcr2, ord, hist, ord2, hist2, |b: Balance| mval(b.prod.by_cr@, k), g, ct);
+    }
+    assert forall|k: Carrier| #[trigger] mval(y.del.grid_by_cr@, k) == ct * mval(x.del.grid_by_cr@, k) by {
+        let g = |r: BalanceCarrier| if rv(r.del.grid_an) != 0real && r.carrier == k { rv(r.del.grid_an) } else { 0real };
+        assert forall|j: int| 0 <= j < ord.len() implies mval((#[trigger] hist[j + 1]).del.grid_by_cr@, k) == mval(hist[j].del.grid_by_cr@, k) + g(bcr[ord[j]]) by {
+            assert(bal_add_by_cr(hist[j], hist[j + 1], bcr[ord[j]]));
+            lemma_map_acc1_mval(hist[j].del.grid_by_cr@, hist[j + 1].del.grid_by_cr@, bcr[ord[j]].carrier, rv(bcr[ord[j]].del.grid_an), rv(bcr[ord[j]].del.grid_an) != 0real, k);
+        }
+        assert forall|j: int| 0 <= j < ord2.len() implies mval((#[trigger] hist2[j + 1]).del.grid_by_cr@, k) == mval(hist2[j].del.grid_by_cr@, k) + g(bcr2[ord2[j]]) by {
+            assert(bal_add_by_cr(hist2[j], hist2[j + 1], bcr2[ord2[j]]));
+            lemma_map_acc1_mval(hist2[j].del.grid_by_cr@, hist2[j + 1].del.grid_by_cr@, bcr2[ord2[j]].carrier, rv(bcr2[ord2[j]].del.grid_an), rv(bcr2[ord2[j]].del.grid_an) != 0real, k);
+        }
+        assert forall|c: Carrier| bcr.contains_key(c) implies g(#[trigger] bcr2[c]) == ct * g(bcr[c]) by {
+            assert(annual_rel(run_of(bcr[c]), run_of(bcr2[c]), ct));
+            lemma_pos_mul(ct, rv(bcr[c].del.grid_an));
+        }
+        lemma_field(bcr, bcr2, ord, hist, ord2, hist2, |b: Balance| mval(b.del.grid_by_cr@, k), g, ct);
+    }
+    assert forall|k: Carrier| #[trigger] mval(y.used.epus_by_cr@, k) == ct * mval(x.used.epus_by_cr@, k) by {
+        let g = |r: BalanceCarrier| if rv(r.used.epus_an) != 0real && r.carrier == k { rv(r.used.epus_an) } else { 0real };
+        assert forall|j: int| 0 <= j < ord.len() implies mval((#[trigger] hist[j + 1]).used.epus_by_cr@, k) == mval(hist[j].used.epus_by_cr@, k) + g(bcr[ord[j]]) by {
+            assert(bal_add_by_cr(hist[j], hist[j + 1], bcr[ord[j]]));
+            lemma_map_acc1_mval(hist[j].used.epus_by_cr@, hist[j + 1].used.epus_by_cr@, bcr[ord[j]].carrier, rv(bcr[ord[j]].used.epus_an), rv(bcr[ord[j]].used.epus_an) != 0real, k);
+        }
+        assert forall|j: int| 0 <= j < ord2.len() implies mval((#[trigger] hist2[j + 1]).used.epus_by_cr@, k) == mval(hist2[j].used.epus_by_cr@, k) + g(bcr2[ord2[j]]) by {
+            assert(bal_add_by_cr(hist2[j], hist2[j + 1], bcr2[ord2[j]]));
+            lemma_map_acc1_mval(hist2[j].used.epus_by_cr@, hist2[j + 1].used.epus_by_cr@, bcr2[ord2[j]].carrier, rv(bcr2[ord2[j]].used.epus_an), rv(bcr2[ord2[j]].used.epus_an) != 0real, k);
+        }
+        assert forall|c: Carrier| bcr.contains_key(c) implies g(#[trigger] bcr2[c]) == ct * g(bcr[c]) by {
+            assert(annual_rel(run_of(bcr[c]), run_of(bcr2[c]), ct));
+            lemma_pos_mul(ct, rv(bcr[c].used.epus_an));
+        }
+        lemma_field(bcr, bcr2, ord, hist, ord2, hist2, |b: Balance| mval(b.used.epus_by_cr@, k), g, ct);
+    }
+}
+/// THE BUILDING THEOREM: two accumulations of per-carrier balances related by ct (visited in any two orders) give whole-building
+/// balances related by ct - totals, weighted energy at steps A and B, and the breakdowns by service, by source and by carrier
+pub proof fn thm_building(bcr: Map<Carrier, BalanceCarrier>, bcr2: Map<Carrier, BalanceCarrier>, ord: Seq<Carrier>, hist: Seq<Balance>, ord2: Seq<Carrier>, hist2: Seq<Balance>, ct: real)
+    requires ct > 0real, bcr_rel(bcr, bcr2, ct), chain_of(bcr, ord, hist), chain_of(bcr2, ord2, hist2),
+    ensures bal_rel(hist.last(), hist2.last(), ct),
+{
+    thm_building_scalars(bcr, bcr2, ord, hist, ord2, hist2, ct);
+    thm_building_we(bcr, bcr2, ord, hist, ord2, hist2, ct);
+    thm_building_srv(bcr, bcr2, ord, hist, ord2, hist2, ct);
+    thm_building_src(bcr, bcr2, ord, hist, ord2, hist2, ct);
+    thm_building_cr(bcr, bcr2, ord, hist, ord2, hist2, ct);
+}
